@@ -200,6 +200,7 @@ type aaCfgOut struct {
 	AdminPrefix string    `json:"admin_prefix"`
 	Shared      bool      `json:"shared"`
 	EmptyLoaded bool      `json:"empty_loaded"` // some LoadRef returned an empty value without error
+	StartedAnyway bool    `json:"started_anyway"` // a secret could not be loaded, yet loadAuth built authorizers and the servers started
 	Rows        []aaRow   `json:"rows"`
 }
 
@@ -318,8 +319,11 @@ func apiAuthRun(in []byte) (any, error) {
 			continue
 		}
 		if co.LoadErr != "" {
+			// a secret of this configuration cannot be loaded, yet loadAuth succeeded: reported by the driver (fail-open start)
 			rt.Shutdown()
-			return nil, fmt.Errorf("config %d: harness could not load a secret (%s) but loadAuth succeeded", ci, co.LoadErr)
+			co.StartedAnyway = true
+			out = append(out, co)
+			continue
 		}
 		for _, r := range compiled.Routes {
 			if r.Pull != nil {
